@@ -57,9 +57,33 @@ where
     R: VRing<I> + EucRing,
     for<'x> &'x R: EucRingOps<R>,
 {
-    let Some(rc) = khref::cube_complex::<R>(pd, mirror, h, t, reduced) else {
-        I::oblige(&format!("{}: reference complex could be built", label), VF::False);
+    let free = khref::signed_crossings_choice(pd, mirror, 0).map(|x| x.2).unwrap_or(0);
+    if free == 0 {
+        for (l, f) in reference_formulas::<I, R>(pd, mirror, reduced, h, t, lib, label, 0) {
+            I::oblige(&l, f);
+        }
         return;
+    }
+    // components that only pass over: the code does not orient them; the library's answer must be the cube-of-resolutions
+    // homology for ONE of the orientations consistent with the under-strand directions
+    let mut alts = Vec::new();
+    for choice in 0..(1usize << free) {
+        alts.push(VF::And(reference_formulas::<I, R>(pd, mirror, reduced, h, t, lib, label, choice).into_iter().map(|x| x.1).collect()));
+    }
+    I::oblige(&format!("{}: agrees with the cube of resolutions for one of the {} admissible orientations", label, 1usize << free), VF::Or(alts));
+}
+
+fn reference_formulas<I, R>(pd: &Pd, mirror: bool, reduced: bool, h: &R, t: &R, lib: &[(isize, usize, Vec<R>)], label: &str, choice: usize) -> Vec<(String, VF<I>)>
+where
+    I: VInt,
+    for<'x> &'x I: VIntOps<I>,
+    R: VRing<I> + EucRing,
+    for<'x> &'x R: EucRingOps<R>,
+{
+    let mut out: Vec<(String, VF<I>)> = Vec::new();
+    let Some(rc) = khref::cube_complex_choice::<R>(pd, mirror, h, t, reduced, choice) else {
+        out.push((format!("{}: reference complex could be built", label), VF::False));
+        return out;
     };
     let size = |x: &R| -> num_bigint::BigInt { x.zero_comps().iter().map(|c| num_traits::Signed::abs(&c.shadow())).sum() };
     let sig = khref::homology_signature(&rc, &size);
@@ -71,14 +95,15 @@ where
         let l = lib.iter().find(|s| s.0 == i);
         let (rr, rt): (usize, Vec<R>) = r.map(|s| (s.1, s.2.clone())).unwrap_or((0, vec![]));
         let (lr, lt): (usize, Vec<R>) = l.map(|s| (s.1, s.2.clone())).unwrap_or((0, vec![]));
-        I::oblige(&format!("{}: free rank in degree {} (library {}, cube {})", label, i, lr, rr), VF::of_bool(lr == rr));
-        I::oblige(&format!("{}: number of torsion summands in degree {} (library {}, cube {})", label, i, lt.len(), rt.len()), VF::of_bool(lt.len() == rt.len()));
+        out.push((format!("{}: free rank in degree {} (library {}, cube {})", label, i, lr, rr), VF::of_bool(lr == rr)));
+        out.push((format!("{}: number of torsion summands in degree {} (library {}, cube {})", label, i, lt.len(), rt.len()), VF::of_bool(lt.len() == rt.len())));
         if lt.len() == rt.len() {
             for (k, (a, b)) in lt.iter().zip(&rt).enumerate() {
-                I::oblige(&format!("{}: torsion factor {} in degree {} associate", label, k, i), a.associate(b));
+                out.push((format!("{}: torsion factor {} in degree {} associate", label, k, i), a.associate(b)));
             }
         }
     }
+    out
 }
 
 impl Harness for Kh {
@@ -256,6 +281,12 @@ pub fn configs(tier: crate::registry::Tier, _seed: u64) -> Vec<crate::registry::
                     v.push(entry(Kh { ring: crate::props::c09::RingSel::Q, name, pd: pd.clone(), mirror, reduced, b: Some(b), mode: Mode::Homology }, 200, if tier == Tier::Quick { 240.0 } else { 1800.0 }));
                 }
             }
+        }
+    }
+    // diagrams with a component that only passes over
+    for (name, pd) in khref::over_only_catalogue() {
+        for mirror in [false, true] {
+            v.push(entry(Kh { ring: crate::props::c09::RingSel::Z, name, pd: pd.clone(), mirror, reduced: false, b: Some(if pd.len() <= 2 { 2 } else { 1 }), mode: Mode::Homology }, 100, 150.0));
         }
     }
     // larger diagrams from the repository's table (5-6 crossings): Z and Q, (h,t) in [-1,1]^2 (quick) / [-2,2]^2 (thorough)
